@@ -1,4 +1,5 @@
 import KoordVerif.Proofs.C17Flow
+import KoordVerif.Proofs.C17ExtNode
 /-
 C17 — migration jobs evict only after capacity is secured; finished jobs stay finished.
 
@@ -180,6 +181,35 @@ theorem evict_node_differs_faultfree_counterexample :
          .resv (some ⟨RPh.available, 1, 1, 0, false, 0, false, true, false⟩), .recon 0] :=
   not_sameNodeFree_of (by decide)
 
+/-- **evict_node_differs_restricted** — the FULL node clause over all histories and ALL write-fault masks, under an
+    explicit decidable restriction of the environment events (`restricted`, Proofs/C17ExtNode.lean; the harness
+    evaluates the same predicate on every generated history): once the job has recorded its target node, no event
+    puts the reservation on a new node (it may be deleted, or re-created unscheduled) and no event puts the pod on
+    a new node.  `NodeInv w` (decidable) holds for every job that has not yet recorded a node.  Both counterexample
+    histories above violate `restricted` (examples in Proofs/C17ExtNode.lean), i.e. the restriction is exactly what
+    the known finding needs. -/
+theorem evict_node_differs_restricted (ops : List Op) :
+    ∀ w : World, NodeInv w → restricted w ops = true →
+      ∀ s ∈ (run w ops).2, s.job0.spec.direct = false →
+        ∀ r p, s.env.resv = some r → s.env.pod = some p → r.node ≠ 0 → r.node ≠ p.node :=
+  evict_node_differs_restricted_core ops
+
+/-- … in particular for every job that starts without a recorded node -/
+theorem evict_node_differs_restricted_fresh (ops : List Op) (w : World) (h : NCs w.job.status)
+    (hres : restricted w ops = true) : SameNodeFree w ops :=
+  evict_node_differs_restricted_fresh_core ops w h hres
+
+/-- the restriction is not vacuous and not trivially false: it excludes both counterexamples, and admits a history
+    with a failed Evict call, a same-node pod UPDATE and a reservation update after the node was recorded, in which
+    the retry does evict -/
+theorem restricted_excludes_counterexamples :
+    restricted cexWorld [.recon 4, .pod (some ⟨2, 1, 2, 0, false⟩), .recon 0] = false ∧
+    restricted { cexWorld with env := { cexWorld.env with resv := some ⟨RPh.available, 1, 1, 0, false, 0, true, true, false⟩ } }
+        [.recon 0, .pod (some ⟨2, 1, 2, 0, false⟩), .resv (some ⟨RPh.available, 1, 1, 0, false, 0, false, true, false⟩), .recon 0] = false ∧
+    restricted cexWorld [.recon 4, .pod (some ⟨2, 3, 2, 0, false⟩), .resv (some ⟨RPh.available, 1, 1, 7, false, 0, false, true, false⟩), .recon 0] = true ∧
+    (run cexWorld [.recon 4, .pod (some ⟨2, 3, 2, 0, false⟩), .resv (some ⟨RPh.available, 1, 1, 7, false, 0, false, true, false⟩), .recon 0]).2.length = 2 := by
+  decide
+
 /-! ### clause 2 — terminal phases are absorbing -/
 
 /-- **terminal_absorbing.**  A job whose phase is anything but ""/Pending/Running (Succeeded, Failed, Aborted, …)
@@ -212,6 +242,16 @@ theorem terminal_forever (ops : List Op) :
     obtain ⟨i1, i2⟩ := ih (step w op).1 h'
     simp only [run]
     exact ⟨i1.trans hstep.1, by rw [hstep.2, i2]; rfl⟩
+
+/-- **failed_job_never_evicts** — over ALL histories, all write-fault masks: from the moment the persisted phase is
+    Failed (at any point `a` of a history `a ++ b`) no later operation calls the evictor, creates nothing and the
+    phase stays Failed.  (The extended model adds: nor is the evictor called by the reconcile that is marking the job
+    Failed — `failed_job_never_evictsX`.) -/
+theorem failed_job_never_evicts (a b : List Op) (w : World) (h : (run w a).1.job.status.phase = Ph.failed) :
+    (run (run w a).1 b).2 = [] ∧ (run (run w a).1 b).1.job.status.phase = Ph.failed := by
+  have hl : livePhase (run w a).1.job.status.phase = false := by rw [h]; decide
+  obtain ⟨h1, h2⟩ := terminal_forever b (run w a).1 hl
+  exact ⟨h2, by rw [h1]; exact h⟩
 
 /-! ### clause 3 — an expired job deletes its reservation -/
 
